@@ -22,7 +22,7 @@ CLAIMS = {
     "C09": ("n >= 1 in the unit concat, n == 0 in the unit concat0", "lazy-subscription gate (member k+1 only after member k completed), member-order data relation over a recursive concatenation, re-issued Pull postcondition"),
     "C10": ("one generated contract per arity 1..3 of the macro", "latest-value tuple gate at every emission (COMBINE_TUPLE), exactly-one-tuple-per-datum counter invariant, counters tied to member phases, completion gate, Pull-reaches-every-running-member postcondition"),
     "C11": ("", "generation ghost: previous-inner-disposed gate at every inner subscription, routing gate on Pulls, completion gate, one Pull per inner greeting, arrival-order data relation"),
-    "C12": ("profile R as the property quantifies: attaches at top level, only the sink being delivered to acts, the source answers inside a delivery only when it is the last of its fan-out; nested fan-out is finding F4", "reference-count invariant (list non-empty <=> upstream alive), position ghost tying attached sinks to list entries, fan-out loop invariant over the snapshot, postconditions: every attached sink gets every datum / the termination / the error"),
+    "C12": ("profile R as the property quantifies: attaches at top level, only the sink being delivered to acts, the source answers inside a delivery only when it is the last of its fan-out; nested fan-out is explored by the bounded supplement on every run (finding F4 there was repaired)", "reference-count invariant (list non-empty <=> upstream alive), position ghost tying attached sinks to list entries, fan-out loop invariant over the snapshot, postconditions: every attached sink gets every datum / the termination / the error"),
     "C13": ("", "every cell is allocated inside the subscription handler (alloc flags in the postcondition of subscribe); closures outside the handler must read exactly as recorded"),
     "C14": ("", "pullable profile (c.pullable): no-unrequested-data gate and outstanding-demand invariant parts"),
     "C15": ("", "iterator-order, one-next-per-item and no-nested-delivery (ddepth) obligations on the extracted loop closure with a loop invariant"),
@@ -57,7 +57,7 @@ for pid, (ops_note, text) in sorted(CLAIMS.items()):
         "replay_cmd_template": "python3 bin/replay.py {path}",
         "engine": "verus-weave",
         "level_claimed": {"category": "proof", "text": f"{text}. Operators under contract: {ops}.", "design_ref": "DESIGN.md 2, 5"},
-        "level_note": (NOTE_T if pid in ("C18", "C19") else NOTE) + f"Covers: {ops}; operators not listed are not yet under contract for this property.",
+        "level_note": (NOTE_T if pid in ("C18", "C19") else NOTE) + ("Histories outside the proved profiles of share (nested fan-out) and combine (late greeters) are explored on every run by a bounded stand-in (all decision tapes up to length 10 against the real crate), reported separately in the evidence. " if pid in ("C01", "C02", "C03", "C04", "C05", "C10", "C12", "C17") else "") + f"Covers: {ops}; operators not listed are not yet under contract for this property.",
         "technique": TECH_T if pid in ("C18", "C19") else TECH,
     })
 m = {
